@@ -40,6 +40,9 @@ class Forbidden(Exception):
     pass
 
 
+TRIPS = []     # every trapped call is recorded as well as refused: the code under test may swallow the exception
+
+
 def install_monitors():
     import xdis.load as LD
     import xdis.unmarshal as U
@@ -48,12 +51,14 @@ def install_monitors():
 
     def deny(name):
         def f(*a, **k):
-            raise Forbidden("forbidden call of %s while loading a file" % name)
+            TRIPS.append("forbidden call of %s while loading a file" % name)
+            raise Forbidden(TRIPS[-1])
         return f
 
     def guarded_open(file, mode="r", *a, **k):
         if any(c in mode for c in "wax+"):
-            raise Forbidden("open(%r, %r) for writing while loading a file" % (file, mode))
+            TRIPS.append("open(%r, %r) for writing while loading a file" % (file, mode))
+            raise Forbidden(TRIPS[-1])
         return open(file, mode, *a, **k)
     for mod in (LD, U, M, MS):
         for name in ("exec", "eval", "compile", "__import__"):
@@ -69,10 +74,15 @@ def known_codes():
 def run_load(data):
     import xdis.load as LD
     rd = SymReader(data)
+    del TRIPS[:]
     try:
         res = LD.load_module_from_file_object(rd, filename="hostile.pyc", code_objects={}, get_code=True)
     except ImportError:
+        if TRIPS:
+            raise AssertionError(TRIPS[0])
         return "ImportError"
+    if TRIPS:
+        raise AssertionError(TRIPS[0])
     if not (isinstance(res, tuple) and len(res) == 7):
         raise AssertionError("returned %r instead of a 7-tuple" % (type(res),))
     return "tuple"
@@ -319,6 +329,68 @@ def resource_ob(magic, tcode):
               bound="5 boundary length values", timeout=120, oracle="finishes within %.0f s, peak < 32 MiB (monitor, separate process)" % LIMIT_S)
 
 
+def realfile_ob():
+    """load_module(path) on real files that are not bytecode: python source renamed to .pyc, prose, binary junk, files with
+    an unknown or a known magic followed by text - only ImportError may escape, and nothing is compiled, executed or imported"""
+    SAMPLES = [
+        ("source-renamed", b"import os\nprint('hello from a .py renamed to .pyc')\nx = [i for i in range(10)]\n" * 2),
+        ("prose", b"This is not bytecode at all, just some prose that is long enough to pass the size test.\n" * 2),
+        ("latin1-junk", bytes(range(160, 256)) * 2),
+        ("zeros", b"\0" * 80),
+        ("known-magic-then-source", b"U\r\r\n" + b"print('x')\n" * 10),
+        ("crlf-magic-unknown", b"\x01\x02\r\n" + b"print('x')\n" * 10),
+        ("shebang", b"#!/usr/bin/env python\n# -*- coding: utf-8 -*-\nimport sys\nsys.exit(0)\n" * 2),
+    ]
+
+    def verdict(name, data):
+        import tempfile
+        import xdis.load as LD
+        install_monitors()
+        d = tempfile.mkdtemp(prefix="c11file")
+        path = os.path.join(d, "module.pyc")
+        try:
+            with open(path, "wb") as f:
+                f.write(data)
+            devnull = open(os.devnull, "w")
+            saved = sys.stdout, sys.stderr
+            sys.stdout = sys.stderr = devnull
+            del TRIPS[:]
+            try:
+                try:
+                    r = LD.load_module(path)
+                    if TRIPS:
+                        return TRIPS[0]
+                    return None if isinstance(r, tuple) and len(r) == 7 else "returned %s" % type(r).__name__
+                except ImportError:
+                    return TRIPS[0] if TRIPS else None
+                except Forbidden as e:
+                    return str(e)
+                except BaseException as e:
+                    return "raises %s: %s" % (type(e).__name__, str(e)[:80])
+            finally:
+                sys.stdout, sys.stderr = saved
+                devnull.close()
+        finally:
+            import shutil
+            shutil.rmtree(d, True)
+
+    def q():
+        for name, data in SAMPLES:
+            v = verdict(name, data)
+            if v is not None:
+                return "refuted", "%s: %s" % (name, v), {"sample": name}, 0, 0.0
+        return "confirmed", "%d files" % len(SAMPLES), None, 0, 0.0
+
+    def replay(sample):
+        data = dict(SAMPLES)[sample]
+        v = verdict(sample, data)
+        return None if v is None else "load_module on a real file (%s, %d bytes starting %r): %s" % (sample, len(data), data[:24], v)
+
+    return Ob(id="C11.realfile", prop="C11", params=[], body=None, direct=q, replay=replay, funcs=FUNCS + ["xdis.load.load_module", "xdis.load.is_python_source"],
+              region="realfile", skeleton="load_module(path) on seven real non-bytecode files", bound="7 files (concrete)", timeout=120,
+              oracle="7-tuple or ImportError only; compile/exec/eval/__import__/open-for-writing inside xdis.load, unmarshal, magics, marsh are trapped")
+
+
 def depth_ob(magic):
     """adversarial nesting depth: containers nested far deeper than the interpreter's recursion limit (concrete probes)"""
     def files():
@@ -519,4 +591,5 @@ def generate(tier, seed):
         obs.append(resource_ob(62211, ord(t)))
     for m in (3413, 62211, 3495, 3230):
         obs.append(depth_ob(m))
+    obs.append(realfile_ob())
     return obs
